@@ -259,7 +259,8 @@ def run(ctx):
                 ctx.evaluations += 1
                 # operator programs run on every backend; trees and simulated forests on one
                 # backend each, round-robin (the derivation structure is what they explore)
-                bk = backends if 'chain' in cfg else {names_l[k % len(names_l)]: backends[names_l[k % len(names_l)]]}
+                all_backends = 'chain' in cfg and (ctx.quick or k % 8 == 0)    # depth-3 programs: every 8th on all
+                bk = backends if all_backends else {names_l[k % len(names_l)]: backends[names_l[k % len(names_l)]]}
                 with ctx.guard('lazy', case):
                     if replay_history(ctx, case, bk):
                         ctx.nontrivial += 1
